@@ -2,13 +2,14 @@
 # usage: tools/with_patch.sh <patch.diff> <ID> [<ID>...]   — apply a patch to /repo, run quick checks, always revert
 set -u
 patch="$(readlink -f "$1")"; shift
+VERIF_DIR="$(cd "$(dirname "$0")/.." && pwd)"
 cd /repo || exit 2
 if ! git diff --quiet; then echo "/repo has uncommitted changes; refusing"; exit 2; fi
 git apply "$patch" || { echo "patch does not apply"; exit 2; }
 trap 'git -C /repo checkout -- . ' EXIT
 rc_all=0
 for id in "$@"; do
-  out=$(cd /verif && ./check "$id" --tier "${TIER:-quick}" 2>&1); rc=$?
+  out=$(cd "$VERIF_DIR" && ./check "$id" --tier "${TIER:-quick}" 2>&1); rc=$?
   echo "== $id exit=$rc"; echo "$out" | grep -E "VIOLATION|KNOWN-FINDING|INCONCLUSIVE|violation detail|SUMMARY" | cut -c1-400 | head -${LINES_MAX:-6}
   [ $rc -ne 0 ] && rc_all=$rc
 done
